@@ -60,7 +60,8 @@ def h_tag_function(g: int, j: int, ws: int, n: int, c0: int, c1: int, s: str, v:
     if kind == "top" and f is not getattr(tags, name, None):
         return False
     key = pick(c0, _ALPHA) + (pick(c1, _ALPHA) if n == 2 else "")
-    kw = {key: v}
+    # several keyword attributes, in an order that must be preserved, including names a wrapper might special-case
+    kw = {key: v, "for_": "f", "class_": "c", "zz": "1", "style": "a:b;", "type": "t", "value": "v"}
     default = name not in INLINE
     child = Tag("b")
     if ws >= 3:
